@@ -327,6 +327,9 @@ Definition s_commands : bytes := [67; 111; 109; 109; 97; 110; 100; 115].
 Definition s_arguments : bytes := [65; 114; 103; 117; 109; 101; 110; 116; 115].
 Definition s_options : bytes := [79; 112; 116; 105; 111; 110; 115].
 
+(** the title of the subcommand section: [subcommand_help_heading] or "Commands" *)
+Definition sub_section_title (c : hcmd) : bytes := opt_default s_commands (hc_sub_heading c).
+
 Fixpoint dedup (l : list bytes) (seen : list bytes) : list bytes :=
   match l with
   | [] => []
@@ -352,7 +355,7 @@ Definition write_all_args (cx : hctx) (c : hcmd) : option (list section) :=
   let non_pos := filter show (filter (fun a => negb (is_some (ha_heading a)))
                                      (filter (fun a => negb (ha_is_positional a)) (hc_args c))) in
   dO s1 <- (if has_visible_subcommands c
-            then dO rows <- write_subcommands cx c; Some [mkSec s_commands rows] else Some []);
+            then dO rows <- write_subcommands cx c; Some [mkSec (sub_section_title c) rows] else Some []);
   dO s2 <- (if is_nil pos then Some []
             else dO rows <- write_args cx pos positional_sort_key; Some [mkSec s_arguments rows]);
   dO s3 <- (if is_nil non_pos then Some []
@@ -371,6 +374,96 @@ Definition write_help (c : hcmd) (use_long : bool) (width : N) : option screen :
   dO usage <- usage_pieces c;
   dO secs <- write_all_args cx c;
   Some (mkScreen (write_about use_long c) usage secs).
+
+(** ---- [write_templated_help]: custom help templates ---- *)
+(** what a template writes, piece by piece.  Texts that the model does not render (name, bin, version,
+    author, before/after-help) are [TPOther tag]; an unknown tag is written back as ["{tag}"]. *)
+Inductive tpiece :=
+| TPText (s : bytes)
+| TPAbout (a : option bytes)
+| TPUsageHeading
+| TPUsage (u : list bytes)
+| TPAllArgs (secs : list section)
+| TPOptions (rows : list row)
+| TPPositionals (rows : list row)
+| TPSubcommands (rows : list row)
+| TPTab
+| TPOther (tag : bytes).
+
+(** [str::split(c)]: always at least one part; [str::split_once(c)] *)
+Fixpoint split_on (sep : N) (s : bytes) : bytes * list bytes :=
+  match s with
+  | [] => ([], [])
+  | x :: t => let '(h, r) := split_on sep t in if x =? sep then ([], h :: r) else (x :: h, r)
+  end.
+Fixpoint split_once (sep : N) (s : bytes) : option (bytes * bytes) :=
+  match s with
+  | [] => None
+  | x :: t => if x =? sep then Some ([], t)
+              else match split_once sep t with Some (a, b) => Some (x :: a, b) | None => None end
+  end.
+
+Definition t_name : bytes := [110; 97; 109; 101].
+Definition t_bin : bytes := [98; 105; 110].
+Definition t_version : bytes := [118; 101; 114; 115; 105; 111; 110].
+Definition t_author : bytes := [97; 117; 116; 104; 111; 114].
+Definition t_author_nl : bytes := t_author ++ [45; 119; 105; 116; 104; 45; 110; 101; 119; 108; 105; 110; 101].
+Definition t_author_sec : bytes := t_author ++ [45; 115; 101; 99; 116; 105; 111; 110].
+Definition t_about : bytes := [97; 98; 111; 117; 116].
+Definition t_about_nl : bytes := t_about ++ [45; 119; 105; 116; 104; 45; 110; 101; 119; 108; 105; 110; 101].
+Definition t_about_sec : bytes := t_about ++ [45; 115; 101; 99; 116; 105; 111; 110].
+Definition t_usage_heading : bytes := [117; 115; 97; 103; 101; 45; 104; 101; 97; 100; 105; 110; 103].
+Definition t_usage : bytes := [117; 115; 97; 103; 101].
+Definition t_all_args : bytes := [97; 108; 108; 45; 97; 114; 103; 115].
+Definition t_options : bytes := [111; 112; 116; 105; 111; 110; 115].
+Definition t_positionals : bytes := [112; 111; 115; 105; 116; 105; 111; 110; 97; 108; 115].
+Definition t_subcommands : bytes := [115; 117; 98; 99; 111; 109; 109; 97; 110; 100; 115].
+Definition t_tab : bytes := [116; 97; 98].
+Definition t_after_help : bytes := [97; 102; 116; 101; 114; 45; 104; 101; 108; 112].
+Definition t_before_help : bytes := [98; 101; 102; 111; 114; 101; 45; 104; 101; 108; 112].
+
+(** the [match tag] of [write_templated_help], arm by arm *)
+Definition write_tag (cx : hctx) (c : hcmd) (tag : bytes) : option tpiece :=
+  if beq tag t_name then Some (TPOther tag)
+  else if beq tag t_bin then Some (TPOther tag)
+  else if beq tag t_version then Some (TPOther tag)
+  else if beq tag t_author then Some (TPOther tag)
+  else if beq tag t_author_nl then Some (TPOther tag)
+  else if beq tag t_author_sec then Some (TPOther tag)
+  else if beq tag t_about then Some (TPAbout (write_about (cx_use_long cx) c))
+  else if beq tag t_about_nl then Some (TPAbout (write_about (cx_use_long cx) c))
+  else if beq tag t_about_sec then Some (TPAbout (write_about (cx_use_long cx) c))
+  else if beq tag t_usage_heading then Some TPUsageHeading
+  else if beq tag t_usage then dO u <- usage_pieces c; Some (TPUsage u)
+  else if beq tag t_all_args then dO secs <- write_all_args cx c; Some (TPAllArgs secs)
+  else if beq tag t_options then
+    dO rows <- write_args cx (filter (fun a => negb (ha_is_positional a)) (hc_args c)) option_sort_key; Some (TPOptions rows)
+  else if beq tag t_positionals then
+    dO rows <- write_args cx (filter ha_is_positional (hc_args c)) positional_sort_key; Some (TPPositionals rows)
+  else if beq tag t_subcommands then dO rows <- write_subcommands cx c; Some (TPSubcommands rows)
+  else if beq tag t_tab then Some TPTab
+  else if beq tag t_after_help then Some (TPOther tag)
+  else if beq tag t_before_help then Some (TPOther tag)
+  else Some (TPText ([123] ++ tag ++ [125])).
+
+(** [write_templated_help]: the text before the first ['{'], then per part the tag's output and the rest;
+    a part without ['}'] writes nothing *)
+Definition write_templated_help (cx : hctx) (c : hcmd) (template : bytes) : option (list tpiece) :=
+  let '(first, parts) := split_on 123 template in
+  dO rest <- map_opt (fun part => match split_once 125 part with
+                                  | Some (tag, rest) => dO p <- write_tag cx c tag; Some [p; TPText rest]
+                                  | None => Some []
+                                  end) parts;
+  Some (TPText first :: concat rest).
+
+(** [write_help] when [Command::help_template] is set (help.rs [write_help], second arm) *)
+Definition write_help_template (c : hcmd) (use_long : bool) (width : N) : option (option (list tpiece)) :=
+  match hc_template c with
+  | Some t => dO r <- write_templated_help (mkCtx use_long (term_w_of width) (h_is_set hs_next_line c)) c t; Some (Some r)
+  | None => Some None
+  end.
+Definition render_help_template (c : hcmd) (use_long : bool) (width : N) : option (option (list tpiece)) :=
+  write_help_template (h_build_self c) use_long width.
 
 (** [Command::render_help] / [render_long_help] / [render_usage] on the user's command *)
 Definition render_help (c : hcmd) (use_long : bool) (width : N) : option screen :=
